@@ -51,14 +51,15 @@ theorem natStr10_head_not_goFlag (n : Nat) (hn : 1 ≤ n) : ∀ c, (natStr 10 fa
 /-- a Format record as `parseFormat` (or `simpleFormat`) builds it -/
 structure FmtWF (f : Fmt) : Prop where
   plus : f.plus = none ∨ f.plus = some '+' ∨ f.plus = some ' '
-  ldelim : ∀ d, f.ldelim = some d → isDelim d = true ∨ (d = ' ' ∧ f.plus = some ' ')
+  ldelim : ∀ d, f.ldelim = some d → isDelim d = true ∨ (d = ' ' ∧ (f.plus = some ' ' ∨ f.plus = some '+'))
   width : ∀ w, f.width = some w → 1 ≤ w ∧ w / 10 ≤ 1000000
   prec : ∀ p, f.prec = some p → p / 10 ≤ 1000000
   letter : isLetter f.letter = true
 
 /-- the flags `unParse` writes, without the delimiter -/
 def unParseFlags (f : Fmt) : Str :=
-  (if f.zeroPad then ['0'] else []) ++ plusStr f ++ (if f.left then ['-'] else []) ++ (if f.alt then ['#'] else [])
+  (if f.zeroPad then ['0'] else []) ++ plusStr f ++ (if f.left then ['-'] else []) ++
+  (if f.ldelim = some ' ' ∧ f.plus = some '+' then [' '] else []) ++ (if f.alt then ['#'] else [])
 
 def unParseTail (f : Fmt) : Str := widthStr f ++ precStr f ++ [f.letter]
 
@@ -87,17 +88,19 @@ theorem unParse_filter (f : Fmt) (h : FmtWF f) :
   have hplus : (plusStr f).filter (fun c => !isDelim c) = plusStr f := by
     unfold plusStr
     rcases h.plus with hp | hp | hp <;> rw [hp] <;> simp <;> decide
-  have hld : (delimStr f).filter (fun c => !isDelim c) = [] := by
+  have hld : (delimStr f).filter (fun c => !isDelim c) = (if f.ldelim = some ' ' ∧ f.plus = some '+' then [' '] else []) := by
     unfold delimStr
     cases hl : f.ldelim with
-    | none => rfl
+    | none => simp
     | some d =>
       simp only
-      rcases h.ldelim d hl with hd | ⟨hd, hp⟩
-      · by_cases hpd : f.plus = some d
-        · simp [hpd]
-        · simp [hpd, hd]
-      · simp [hp, hd]
+      rcases h.ldelim d hl with hd | ⟨hd, hp | hp⟩
+      · have hne : d ≠ ' ' := by rintro rfl; revert hd; decide
+        by_cases hpd : f.plus = some d
+        · simp [hpd, hne]
+        · simp [hpd, hd, hne]
+      · subst hd; simp [hp]
+      · subst hd; simp [hp]; decide
   have hpct : isDelim '%' = false := by decide
   have hz : isDelim '0' = false := by decide
   have hm : isDelim '-' = false := by decide
@@ -110,10 +113,11 @@ theorem unParseFlags_go (f : Fmt) (h : FmtWF f) : ∀ c ∈ unParseFlags f, isGo
   intro c hc
   unfold unParseFlags plusStr at hc
   simp only [List.mem_append] at hc
-  rcases hc with ((hc | hc) | hc) | hc
+  rcases hc with (((hc | hc) | hc) | hc) | hc
   · by_cases hz : f.zeroPad = true <;> simp [hz] at hc; rw [hc]; decide
   · rcases h.plus with hp | hp | hp <;> rw [hp] at hc <;> simp at hc <;> rw [hc] <;> decide
   · by_cases hz : f.left = true <;> simp [hz] at hc; rw [hc]; decide
+  · by_cases hz : f.ldelim = some ' ' ∧ f.plus = some '+' <;> simp [hz] at hc; rw [hc]; decide
   · by_cases hz : f.alt = true <;> simp [hz] at hc; rw [hc]; decide
 
 theorem letter_not_goFlag (c : Char) (h : isLetter c = true) : isGoFlag c = false := by
@@ -234,52 +238,23 @@ theorem findDelim_some (fl : Str) : ∀ (ds : List Char) (acc r : Option Char), 
           · left; cases h'; simp
 
 theorem parseFormat_ldelim (orig : Str) (sep sep2 : Option Str) (f : Fmt) (h : parseFormat orig sep sep2 = .ok f) :
-    ∀ d, f.ldelim = some d → isDelim d = true ∨ (d = ' ' ∧ f.plus = some ' ') := by
-  unfold parseFormat at h
-  cases hm : matchPattern orig with
-  | none => rw [hm] at h; cases h
-  | some p =>
-    rw [hm] at h
-    simp only [bind, Except.bind] at h
-    cases h1 : hasOnce p.flags '+' with
-    | error e => rw [h1] at h; cases h
-    | ok hasPlus =>
-      rw [h1] at h; simp only at h
-      cases h2 : hasOnce p.flags ' ' with
-      | error e => rw [h2] at h; cases h
-      | ok hasSpace =>
-        rw [h2] at h; simp only at h
-        cases h3 : findDelim p.flags delimiters none with
-        | error e => rw [h3] at h; cases h
-        | ok found =>
-          rw [h3] at h; simp only at h
-          cases h4 : hasOnce p.flags '-' with
-          | error e => rw [h4] at h; cases h
-          | ok left =>
-            rw [h4] at h; simp only at h
-            cases h5 : hasOnce p.flags '#' with
-            | error e => rw [h5] at h; cases h
-            | ok alt =>
-              rw [h5] at h; simp only at h
-              cases h6 : hasOnce p.flags '0' with
-              | error e => rw [h6] at h; cases h
-              | ok zp =>
-                rw [h6] at h; simp only [pure, Except.pure] at h
-                cases h
-                intro d hd
-                simp only at hd
-                cases found with
-                | some x =>
-                  simp only at hd; cases hd
-                  rcases findDelim_some p.flags delimiters none (some d) h3 d rfl with h' | h'
-                  · left; simp [delimiters] at h'; rcases h' with rfl | rfl | rfl | rfl | rfl <;> decide
-                  · cases h'
-                | none =>
-                  simp only at hd
-                  right
-                  cases hasSpace with
-                  | false => cases hasPlus <;> simp at hd
-                  | true => simp at hd; exact ⟨hd.symm, by simp⟩
+    ∀ d, f.ldelim = some d → isDelim d = true ∨ (d = ' ' ∧ (f.plus = some ' ' ∨ f.plus = some '+')) := by
+  obtain ⟨p, hasPlus, hasSpace, found, _, _, _, _, _, _, hfplus, _, _, _, _, h3, hld, _, _⟩ := parseFormat_ok orig sep sep2 f h
+  intro d hd
+  rw [hld] at hd
+  cases found with
+  | some x =>
+    simp only at hd; cases hd
+    rcases findDelim_some p.flags delimiters none (some d) h3 d rfl with h' | h'
+    · left; simp [delimiters] at h'; rcases h' with rfl | rfl | rfl | rfl | rfl <;> decide
+    · cases h'
+  | none =>
+    simp only at hd
+    right
+    rw [hfplus]
+    cases hasSpace with
+    | false => simp at hd
+    | true => simp at hd; refine ⟨hd.symm, ?_⟩; cases hasPlus <;> simp
 
 theorem readNat_pos (c : Char) (cs : Str) (hc : isDigit c = true) (h0 : c ≠ '0') : 1 ≤ readNat (c :: cs) := by
   have hmono : ∀ (l : Str) (acc : Nat), 1 ≤ acc → 1 ≤ l.foldl (fun n c => n * 10 + (c.toNat - '0'.toNat)) acc := by
@@ -310,7 +285,7 @@ theorem head_takeWhile {p : Char → Bool} : ∀ (l : Str) (c : Char), (l.takeWh
 
 theorem parseFormat_wf (orig : Str) (sep sep2 : Option Str) (f : Fmt) (h : parseFormat orig sep sep2 = .ok f)
     (hn : NumOK f) : FmtWF f := by
-  obtain ⟨p, hasPlus, hasSpace, hm, _, _, _, _, _, hfplus, hletter, hwidth, hprec, _⟩ := parseFormat_ok orig sep sep2 f h
+  obtain ⟨p, hasPlus, hasSpace, _, hm, _, _, _, _, _, hfplus, hletter, hwidth, hprec, _⟩ := parseFormat_ok orig sep sep2 f h
   obtain ⟨rest, _, _, hwd, hlet, _⟩ := matchPattern_some orig p hm
   refine ⟨?_, parseFormat_ldelim orig sep sep2 f h, ?_, fun p hp => hn.prec p hp, by rw [hletter]; exact hlet⟩
   · rw [hfplus]; cases hasSpace <;> cases hasPlus <;> simp
@@ -351,8 +326,9 @@ theorem goParse_replace (f : Fmt) (h : FmtWF f) (c : Char) (hc : isLetter c = tr
   exact ⟨g, hg, hv, hw⟩
 
 /-- **every format string pcore hands to fmt for a parsed Format is a directive fmt understands** -/
-theorem parseFormat_goOK (orig : Str) (sep sep2 : Option Str) (f : Fmt) (h : parseFormat orig sep sep2 = .ok f)
-    (hn : NumOK f) : GoOK f := by
+theorem parseFormat_goOK (orig : Str) (sep sep2 : Option Str) (f : Fmt) (h : parseFormat orig sep sep2 = .ok f) :
+    GoOK f := by
+  have hn := parseFormat_numOK orig sep sep2 f h
   refine ⟨parseFormat_goOK0 orig sep sep2 f h hn, ?_, ?_, ?_⟩
   · obtain ⟨g, hg, hv⟩ := goParse_withoutWidth f (parseFormat_wf orig sep sep2 f h hn)
     unfold VerbOK; rw [hg]; exact hv
